@@ -53,7 +53,7 @@ pub fn kind_name(k: Kind) -> &'static str { match k { Kind::Pk => "pk", Kind::Sk
 pub fn run(env: &Env) {
     let seed = env.ctx.seed;
     let maxlen = if env.thorough() { 2048 } else { 1024 };
-    env.ctx.set_rule("every byte length 0..=1024 (thorough 0..=2048) x 6 content classes (zeros, ff, identity pattern, honest encoding truncated/zero-extended, honest prefix then ff, seeded random) x 14 byte-taking entry points (8 decoders, deserialize_and_validate_commit, proof_gen(signature bytes), verify(pk bytes), blind_sign(commitment bytes), proof_verify(proof bytes), blind_proof_verify(proof bytes)); JSON: every leaf of the honest JSON of 6 types x 12 substitutions + removal; index lists: ALL lists of length <= 3 over {0,1,L-1,L,L+1,2^32,2^63,usize::MAX-1,usize::MAX} for proof_gen / proof_verify / blind_proof_gen / blind_proof_verify (each side), message-count mismatches, L and n alphabets for blind_proof_verify / update_signature; both suites. Oracle: the call returns Ok or Err (no panic, no abort, no hang), CPU <= 250 ms + 20 us/byte + 2 ms/count, allocation <= 256 KiB + 256 B/byte + 8 KiB/count. State = one (entry point, input) case; all are non-trivial (each reaches the real entry point).");
+    env.ctx.set_rule("every byte length 0..=1024 (thorough 0..=2048) x 6 content classes (zeros, ff, identity pattern, honest encoding truncated/zero-extended, honest prefix then ff, seeded random) x 16 byte-taking entry points (incl. proof / blind proof verification with nothing disclosed, None and empty forms) (8 decoders, deserialize_and_validate_commit, proof_gen(signature bytes), verify(pk bytes), blind_sign(commitment bytes), proof_verify(proof bytes), blind_proof_verify(proof bytes)); JSON: every leaf of the honest JSON of 6 types x 12 substitutions + removal; index lists: ALL lists of length <= 3 over {0,1,L-1,L,L+1,2^32,2^63,usize::MAX-1,usize::MAX} for proof_gen / proof_verify / blind_proof_gen / blind_proof_verify (each side), message-count mismatches, L and n alphabets for blind_proof_verify / update_signature; both suites. Oracle: the call returns Ok or Err (no panic, no abort, no hang), CPU <= 250 ms + 20 us/byte + 2 ms/count, allocation <= 256 KiB + 256 B/byte + 8 KiB/count. State = one (entry point, input) case; all are non-trivial (each reaches the real entry point).");
     env.ctx.assume("budgets are one to two orders of magnitude above the measured honest costs so that timing noise cannot raise an alarm; the defects they exist for exceed them by more than six orders");
     let mut cases: Vec<Case> = Vec::new();
     for s in suites() {
@@ -75,6 +75,14 @@ pub fn run(env: &Env) {
                 }
             }
         }
+        // 1b. verification with NOTHING disclosed (None and empty forms) on every length / class, plus honest zero-message proofs
+        let k0 = &b.key;
+        let sig0 = z(s).sign(&k0.sk, &k0.pk, Some(&b.header), Some(&[])).ok().unwrap_or_default();
+        let proof0 = z(s).proof_gen(&k0.pk, &sig0, Some(&b.header), Some(&b.ph), Some(&[]), Some(&[])).ok().unwrap_or_default();
+        for (f, honest) in [("proof_verify_bytes_nodisclosure", &proof0), ("blind_proof_verify_bytes_nodisclosure", &proof0)] { for n in 0..=maxlen.min(512) { for (cn, bytes) in classes(seed, honest, n, f) {
+            if n == 0 && cn != "zeros" { continue; }
+            for none in [false, true] { cases.push(Case { case: json!({"f": f, "s": sn, "b": hex::encode(&bytes), "class": cn, "len": n, "none": none}), class: format!("{}:{}", f, cn), bytes: n, count: n / 32 + 4, expect_ok: if n == honest.len() && cn == "honest-truncated-or-zero-extended" && f.starts_with("proof_verify") { Some(true) } else { None } }); }
+        } } }
         // 2. JSON leaves
         let zk = z(s);
         for k in KINDS {
